@@ -14,6 +14,24 @@ CHECKS = {
  "C04": dict(level="exploration", technique="property-based testing and bounded enumeration in crash-isolated workers: generated/mutated/adversarial byte strings and planted refusals, oracle = returns Ok or Err (no panic, signal or hang); real binaries sampled",
    text="Totality is checked by executing: every case runs slice and reader translation under catch_unwind inside worker processes whose death (signal) is attributed to a concrete case by traced re-execution; a heartbeat watchdog turns non-termination into a reported case. The debug and release binaries (panic=abort) are run on a sample and on all adversarial shapes.",
    note="Sees only executed inputs. libyaml's scanner is quadratic in flow-nesting depth, so flow nesting beyond 20,000 levels is not given to the YAML parser (it terminates, in hours).", ref="4 C04"),
+ "C03": dict(level="exploration", technique="stateful property-based testing (proptest): generated multi-input histories on one Translator; metamorphic oracle (concatenation of stand-alone translations, independence from call distribution) plus independent framing reader",
+   text="Generated histories of inputs and documents with drawn separators, formats, supply modes and buffer-boundary padding; the output must equal the concatenation of per-document translations under three different distributions over calls, and the independent reader of the target must recover exactly N documents equal to the model values.",
+   note="TOML targets belong to C08. Trusts the harness stream writers (validated against the harness readers on every case) and readers.", ref="4 C03"),
+ "C06": dict(level="exploration", technique="property-based testing (proptest): fixed-point oracle xt(B->B)(y)==y and round-trip oracle xt(B->A)(xt(A->B)(x))==xt(A->A)(x) over generated documents incl. extension values",
+   text="Self-referential oracles that need no reference implementation: byte-for-byte idempotence of every successful output from both supply modes, and byte-level (value-level for TOML) round trip for common-model documents, over all 16 ordered pairs.",
+   note="A refused first hop is not a violation. Known findings K5 (TOML ordering) and K7 (f32 text output) are excluded by input-side predicates plus licensed shapes.", ref="4 C06"),
+ "C07": dict(level="exploration", technique="exhaustive enumeration of all Unicode scalar values and ill-formed unit classes through the re-encoder hook against std's decoder as reference, plus differential property-based testing of UTF-16/32 vs UTF-8 YAML end to end",
+   text="The character domain is finite and is enumerated completely (every scalar value, every encoding, BOM and buffer-size combination listed in the evidence; every ill-formed one- and two-unit class at three positions); the end-to-end claim is sampled with generated YAML streams under all supply modes.",
+   note="Reference = Rust's standard library UTF-8/UTF-16 conversions. Buffer sizes are a finite listed set, not all sizes.", ref="4 C07"),
+ "C08": dict(level="exploration", technique="model-based stateful property testing (proptest): histories of translate calls on one TOML translator against a reference state machine (attempted/accepted), with refusals planted at enumerated node paths",
+   text="Reference model of the TOML output contract run in lock-step with the real translator over a logging writer: per call verdict, bytes written by that call, validity and value of the single accepted document (toml_edit), and the 'nothing or exactly one document' invariant after every step.",
+   note="For binary/ext/f32/non-string non-null keys the statement does not fix accept-or-refuse; the check requires only nothing-and-Err or one valid document. K5 and K8 are known findings.", ref="4 C08"),
+ "C09": dict(level="exploration", technique="differential property-based testing of detected vs explicit runs using the detection hook, plus bounded-exhaustive and random model-based testing of the rewindable input handle",
+   text="Part 1 compares, for generated and enumerated byte strings and both supply modes, the complete outcome (verdict, bytes, error text) of a detected run with the run that names the hook-reported format, and requires 'unable to detect input format' otherwise. Part 2 runs every program of handle operations up to a bound (all small data sizes, all chunkings, both endings) against the reference model 'the byte string itself'.",
+   note="Observes detection through the verif hook. Known findings K4 and K6 license two precisely shaped differences between failing detected and explicit reader runs.", ref="4 C09"),
+ "C10": dict(level="exploration", technique="property-based testing (proptest): xt output fed back without a format vs with the format named; TOML precondition decided by independent harness predicates",
+   text="Generated collection-rooted documents are translated to each output format; the output must be detected as that format (hook) and translate identically with and without naming it, from a slice and from a scheduled reader. The TOML precondition is evaluated without xt and the fraction satisfying it is reported.",
+   note="Shares K4/K6 with C09 for failing runs.", ref="4 C10"),
 }
 
 PENDING = {}
